@@ -6,11 +6,11 @@ A = ["internal (enkiTS) back end compiled from source with -DRKCOMMON_TASKING_IN
 UAF = r"MEM:use after free in _ZN4enki13TaskScheduler10TryRunTaskEjRj"
 
 
-def unit(name, entries, threads, preempt, q, internal=True, validate=None):
-    defs = (["RKCOMMON_TASKING_INTERNAL"] if internal else []) + ["VP_PATH", "THREADS=%d" % threads, "PREEMPT=%d" % preempt]
+def unit(name, entries, threads, preempt, q, internal=True, validate=None, extra_defs=()):
+    defs = (["RKCOMMON_TASKING_INTERNAL"] if internal else []) + ["VP_PATH", "THREADS=%d" % threads, "PREEMPT=%d" % preempt] + list(extra_defs)
     sched = ("one deterministic round-robin schedule (switches at blocking calls, yields and every 400th synchronisation point)" if preempt == 0 else
              "every schedule with at most %d preemption(s) at synchronisation calls / atomic and volatile accesses, plus free switches at blocking points" % preempt)
-    return PathUnit(name, "harness/C13_tasking.cpp", entries, defines=defs, native_defines=["VP_NATIVE_BUILD"], tolerate=[UAF] if internal else [],
+    return PathUnit(name, "harness/C13_tasking.cpp", entries, defines=defs, native_defines=["VP_NATIVE_BUILD"] + list(extra_defs), tolerate=[UAF] if internal else [],
                     replay_repeat=(6 if threads > 1 else 1), validate=(threads == 1 if validate is None else validate),
                     assumptions=A + ["%d tasking thread(s); %s" % (threads, sched) if internal else "serial back end: no threads"],
                     stubs=["threads: cooperative interleaving of whole IR instructions, sequentially consistent memory (weak-memory effects outside the claim)"])
